@@ -65,13 +65,13 @@ type cEntry struct {
 }
 
 type cReq struct {
-	id      int
-	c       *Case
-	lines   [][]byte // reference lines
-	mu      sync.Mutex
-	entries []cEntry
+	id                int
+	c                 *Case
+	lines             [][]byte // reference lines
+	mu                sync.Mutex
+	entries           []cEntry
 	panicMsg, panicAt string
-	netErr  error
+	netErr            error
 }
 
 // roundState is published with one atomic store per round (the only
